@@ -586,6 +586,60 @@ def observe_nested(chain, L):
     return obs
 
 
+BRACKET = {'lsq': '[', 'lpar': '(', 'lcub': '{', 'rsq': ']', 'rpar': ')', 'rcub': '}'}
+
+
+def interval_config(c):
+    op = '[(' if c['open'] == 'two' else BRACKET[c['open']]
+    cl = '])' if c['close'] == 'two' else BRACKET[c['close']]
+    bounds = ['1', '2', '3', '4', '5'][:c['nbounds']]
+    val = op + ','.join(bounds) + cl if c['form'] == 'string' else [op] + bounds + [cl]
+    if c['wrap'] == 'tuple':
+        val = (val,)
+    elif c['wrap'] == 'dict':
+        val = {'expect': val, 'msg': MSG}
+    cfg = {'answers': val}
+    if c['curly']:
+        cfg.update(opening_brackets='[({', closing_brackets='])}')
+    return cfg
+
+
+def interval_canonical(answers):
+    if not isinstance(answers, tuple) or len(answers) != 1:
+        return 'answers is not a tuple of one dictionary'
+    a = answers[0]
+    if not isinstance(a, dict) or set(a) != {'expect', 'grade_decimal', 'msg', 'ok'} or not isinstance(a['expect'], tuple):
+        return 'entry is not a canonical dictionary'
+    for lst in a['expect']:
+        if not isinstance(lst, list) or len(lst) != 4:
+            return 'expect is not a tuple of four-entry lists'
+        for ent in lst:
+            if not (isinstance(ent, tuple) and ent and all(isinstance(d, dict) and set(d) == {'expect', 'grade_decimal', 'msg', 'ok'}
+                                                            and isinstance(d['expect'], tuple) for d in ent)):
+                return 'interval entry is not a canonical answers tuple'
+    return None
+
+
+def observe_interval(c, L):
+    C = L['IntervalGrader']
+    s1, e1, o1 = attempt(lambda: C(interval_config(c)), L)
+    s2, e2, o2 = attempt(lambda: C(**interval_config(c)), L)
+    obs = {'status': s1, 'exc': e1, 'status_kw': s2, 'exc_kw': e2, 'canon_ok': True, 'kwargs_equal': s1 == s2,
+           'idempotent': True, 'detail': ''}
+    if s1 == 'accept':
+        why = interval_canonical(o1.config['answers'])
+        if why:
+            obs['canon_ok'] = False
+            obs['detail'] = why
+        if s2 == 'accept':
+            obs['kwargs_equal'] = deq(o1.config, o2.config)
+        facts = check_object('IntervalGrader', o1, L)
+        obs['idempotent'] = facts['idempotent'] is not False
+        if not obs['idempotent']:
+            obs['detail'] = facts.get('idem_detail')
+    return obs
+
+
 def square_config(c):
     return {'symmetry': None if c['symmetry'] == 'none' else c['symmetry'], 'traceless': bool(c['traceless']),
             'determinant': {'none': None, 'zero': 0, 'one': 1}[c['determinant']], 'complex': bool(c['complex']),
@@ -675,6 +729,11 @@ def replay_states(states, extra):
             probs = judge_simple(expect, obs, 'nested-delimiters')
             case = {'part': kind, 'chain': c['chain']}
             res['keys'].add((kind, expect, len(c['chain'])))
+        elif kind == 'interval':
+            obs = observe_interval(c, L)
+            probs = judge_simple(expect, obs, 'intervalgrader-answers')
+            case = {'part': kind, 'case': {k: c[k] for k in ('form', 'open', 'close', 'nbounds', 'curly', 'wrap')}}
+            res['keys'].add((kind, expect, c['form'], c['wrap'], c['nbounds']))
         elif kind == 'square':
             obs = observe_square(c, L)
             probs = judge_simple(expect, obs, 'squarematrices')
@@ -796,7 +855,13 @@ def rand_records(rng, n, table):
             nans = rng.choice([0, 1, 2, 3, 4, len(subs), len(subs), len(set(grouping)) or 2])
             recs.append({'id': i, 'ev': 'lgroup', 'ordered': rng.random() < .6, 'subs': subs, 'one': one, 'grouping': grouping,
                          'nans': nans, 'ntup': rng.choice([0, 0, 1, 2, 3])})
-        elif r < .95:
+        elif r < .93:
+            form = rng.choice(['string', 'list'])
+            syms = ['lsq', 'lpar', 'lcub', 'rsq', 'rpar', 'rcub'] + (['two'] if form == 'list' else [])
+            recs.append({'id': i, 'ev': 'interval', 'form': form, 'open': rng.choice(['lsq', 'lpar'] * 3 + syms),
+                         'close': rng.choice(['rsq', 'rpar'] * 3 + syms), 'nbounds': rng.choice([2, 2, 2, 1, 3, 4, 5]),
+                         'curly': rng.random() < .5, 'wrap': rng.choice(['bare', 'tuple', 'dict'])})
+        elif r < .96:
             recs.append({'id': i, 'ev': 'nested', 'chain': [rng.choice(sorted(DELIM)) for _ in range(rng.randint(1, 5))]})
         else:
             recs.append({'id': i, 'ev': 'square', 'symmetry': rng.choice(['none', 'diagonal', 'symmetric', 'antisymmetric',
@@ -838,7 +903,8 @@ def observe_chunk(recs, extra):
             r.update(status=o['status'], status_kw=o['status_kw'], exc=o['exc'] or o['exc_kw'] or '', canon=o['canon'],
                      canon_ok=o['canon_ok'], kwargs_equal=o['kwargs_equal'], idempotent=o['idempotent'])
         else:
-            o = observe_lg(r, L) if ev == 'lgroup' else observe_nested(r['chain'], L) if ev == 'nested' else observe_square(r, L)
+            o = observe_lg(r, L) if ev == 'lgroup' else observe_nested(r['chain'], L) if ev == 'nested' \
+                else observe_interval(r, L) if ev == 'interval' else observe_square(r, L)
             r.update(status=o['status'], status_kw=o['status_kw'], exc=o['exc'] or o['exc_kw'] or '', canon_ok=o['canon_ok'],
                      kwargs_equal=o['kwargs_equal'], idempotent=o['idempotent'])
         out.append(r)
@@ -857,6 +923,7 @@ def report_trace(ctx, r, clause):
     head = clause.split(':')[0]
     klass = refine(CLAUSE_CLASS.get(head) or 'non-config-exception:%s' % r.get('exc'), r)
     case = {k: r[k] for k in r if k in ('cls', 'cfg', 'ans', 'la', 'chain', 'ordered', 'subs', 'one', 'grouping', 'nans', 'ntup',
+                                        'form', 'open', 'close', 'nbounds', 'curly', 'wrap',
                                         'symmetry', 'traceless', 'determinant', 'complex', 'dimension')}
     sig = {'part': 'trace:' + r['ev']}
     sig.update(case)
@@ -867,7 +934,7 @@ def report_trace(ctx, r, clause):
 
 
 # ---------------------------------------------------------------- driver
-PARTS = ['single', 'mathx', 'answers', 'listans', 'lgroup', 'nested', 'square']
+PARTS = ['single', 'mathx', 'answers', 'listans', 'lgroup', 'nested', 'interval', 'square']
 DOC_CONFLICTS = [
     'SumGrader.samples: docstring "default changed to 2", docs/grading_math/sum_grader.md "default 1"',
     'SumGrader.infty_val_fact: docs/grading_math/sum_grader.md spells it inftY_val_fact',
